@@ -64,7 +64,8 @@ Decls(n) ==
 RECURSIVE TreeCtx(_, _)
 TreeCtx(d, I) == IF d.k = "viaimpl" THEN TreeCtx(I[d.j], I) ELSE Rng(d.cs)
 
-NoEval == [active |-> 0, outc |-> <<>>, houtc |-> <<>>, seeded |-> {}, has |-> {}, called |-> {}, pval |-> 0]
+NoEval == [active |-> 0, outc |-> <<>>, houtc |-> <<>>, seeded |-> {}, arch |-> FALSE, has |-> {}, called |-> {},
+           pval |-> 0]
 
 Init ==
     /\ phase = "reg" /\ impls = <<>>
@@ -92,17 +93,18 @@ RegisterImpl(d) ==
 (* Evaluation, the way the engine does it (DrEngine: Ignored branch,        *)
 (* MissingReq branch, registry point = at-least-one group read in reverse). *)
 (* a = active context (0: none), S = implementations whose value is         *)
-(* already in the broker (never re-run: dr.py:1067).                        *)
-RECURSIVE Run(_, _, _, _, _, _)
-Run(i, a, S, oc, hoc, st) ==
+(* already in the broker (never re-run: dr.py:1067), P = implementations    *)
+(* removed from the graph before the run (Pruned).                          *)
+RECURSIVE Run(_, _, _, _, _, _, _)
+Run(i, a, S, P, oc, hoc, st) ==
     IF i > Len(impls) THEN st
     ELSE LET d     == impls[i]
              ign   == a \in ignore[i]                                  \* dr.py:793
              ready == CASE d.k \in {"req", "any"} -> a \in Rng(d.cs)
                         [] d.k = "via"            -> a \in Rng(d.cs) /\ hoc[i] = "val"
                         [] OTHER                  -> d.j \in st.has
-             fire  == i \notin S /\ ~ign /\ ready
-         IN Run(i + 1, a, S, oc, hoc,
+             fire  == i \notin S /\ i \notin P /\ ~ign /\ ready
+         IN Run(i + 1, a, S, P, oc, hoc,
                 [has    |-> st.has \cup (IF i \in S \/ (fire /\ oc[i] = "val") THEN {i} ELSE {}),
                  called |-> st.called \cup (IF fire THEN {i} ELSE {})])
 
@@ -111,9 +113,16 @@ PointPick(has) ==
     LET idx == {x \in DOMAIN pointDeps : pointDeps[x] \in has}
     IN IF idx = {} THEN 0 ELSE pointDeps[Max(idx)]
 
-EvalWith(a, oc, hoc, S) ==
-    LET r == Run(1, a, S, oc, hoc, [has |-> {}, called |-> {}])
-    IN [active |-> a, outc |-> oc, houtc |-> hoc, seeded |-> S, has |-> r.has, called |-> r.called,
+(* dr.run with a SerializedArchiveContext in the broker (arch): the DIRECT   *)
+(* dependencies of every component whose value is already loaded are taken  *)
+(* out of the graph ("no need to collect them again", dr.py:1121-1128), so  *)
+(* an implementation a seeded one is bound to does not run, and neither     *)
+(* does anything else bound to it.                                          *)
+PrunedIn(I, S, arch) == IF arch THEN {I[s].j : s \in {x \in S : I[x].k = "viaimpl"}} ELSE {}
+
+EvalWith(a, oc, hoc, S, arch) ==
+    LET r == Run(1, a, S, PrunedIn(impls, S, arch) \ S, oc, hoc, [has |-> {}, called |-> {}])
+    IN [active |-> a, outc |-> oc, houtc |-> hoc, seeded |-> S, arch |-> arch, has |-> r.has, called |-> r.called,
         pval |-> PointPick(r.has)]
 
 Outs  == {"val", "fail"}
@@ -131,10 +140,10 @@ Evaluate ==
     /\ phase = "eval"
     /\ phase' = "done"
     /\ LET n == Len(impls) IN
-       \/ \E a \in Ctx, oc \in [1..n -> Outs], hoc \in HOuts(n) : ev' = EvalWith(a, oc, hoc, {})
+       \/ \E a \in Ctx, oc \in [1..n -> Outs], hoc \in HOuts(n) : ev' = EvalWith(a, oc, hoc, {}, FALSE)
        \/ /\ AllowSeed
-          /\ \E S \in SUBSET (1..n) \ {{}}, oc \in SeedOuts(n) :
-                ev' = EvalWith(0, oc, [i \in 1..n |-> "val"], S)
+          /\ \E S \in SUBSET (1..n) \ {{}}, oc \in SeedOuts(n), arch \in BOOLEAN :
+                ev' = EvalWith(0, oc, [i \in 1..n |-> "val"], S, arch)
     /\ UNCHANGED <<impls, handlers, ignore, pointDeps>>
 
 Register == \E d \in Decls(Len(impls)) : RegisterImpl(d)
@@ -162,13 +171,18 @@ YieldsIn(i, I, oc, hoc) ==
 ExpectedIn(a, I, oc, hoc) ==
     LET L == LatestIn(a, I) IN IF L # 0 /\ YieldsIn(L, I, oc, hoc) THEN L ELSE 0
 
-(* Archive hydration: values of S are in the broker, no context is.         *)
-RECURSIVE AvailIn(_, _, _, _)
-AvailIn(n, I, S, oc) ==
+(* Archive hydration: values of S are in the broker, no execution context   *)
+(* of the history is.  Which further implementations obtain a value is the  *)
+(* engine's business (only one bound to an implementation that has a value  *)
+(* can fire, and not when the archive pruning removed it: P); the statement *)
+(* of C05 for this situation is about the registry point: it hands on the   *)
+(* value of the most recently registered implementation THAT HOLDS ONE.     *)
+RECURSIVE AvailIn(_, _, _, _, _)
+AvailIn(n, I, S, P, oc) ==
     IF n = 0 THEN {}
-    ELSE LET A == AvailIn(n - 1, I, S, oc)
-         IN IF n \in S \/ (I[n].k = "viaimpl" /\ I[n].j \in A /\ oc[n] = "val") THEN A \cup {n} ELSE A
-SeedExpectedIn(I, S, oc) == LET A == AvailIn(Len(I), I, S, oc) IN IF A = {} THEN 0 ELSE Max(A)
+    ELSE LET A == AvailIn(n - 1, I, S, P, oc)
+         IN IF n \in S \/ (n \notin P /\ I[n].k = "viaimpl" /\ I[n].j \in A /\ oc[n] = "val") THEN A \cup {n} ELSE A
+LatestHolding(H) == IF H = {} THEN 0 ELSE Max(H)
 
 Done    == phase = "done"
 Ctxd    == Done /\ ev.active # 0
@@ -183,8 +197,12 @@ AbsentNotBackfilled ==
     Ctxd => LET L == Latest(ev.active) IN
             (L # 0 /\ ~YieldsIn(L, impls, ev.outc, ev.houtc)) => ev.pval = 0
 SeededResolvesToLatest ==
-    (Done /\ ev.active = 0) => /\ ev.pval = SeedExpectedIn(impls, ev.seeded, ev.outc)
+    (Done /\ ev.active = 0) => /\ ev.pval = LatestHolding(ev.has)
                                /\ ev.called \cap ev.seeded = {}
+(* denotation of what holds a value after a seeded run (engine side, with the archive pruning) *)
+SeededAvail ==
+    (Done /\ ev.active = 0) =>
+        ev.has = AvailIn(Len(impls), impls, ev.seeded, PrunedIn(impls, ev.seeded, ev.arch) \ ev.seeded, ev.outc)
 
 (* Mechanism invariants (every state): exactly the latest handler of a      *)
 (* context does not ignore it; handler lists are the declared ones.         *)
